@@ -107,10 +107,10 @@ pub fn run(ctx: &mut Ctx) {
         extras: true,
         all_widths: false,
     };
-    ctx.meta("rule", "cases: (tree, subset of masters encoded with unknown size, marker width); trees = every forest over V up to the node bound + the deep spines; all 2^m subsets; encoded by RefEncoder (1- and 8-byte all-ones markers, and for trees of <= 5 elements every marker width 1..8; plus > 64 KiB documents with long headers at every alignment around the buffer boundary) and, independently, by the real TagWriter with write_advanced(unknown). Excluded by construction: a global element as the first element after an unknown-size master's last descendant. Every encoding is also parsed with hierarchy problems / oversized children / everything tolerated (a valid document holds nothing to tolerate). Oracle: strict parse == flatten(tree) with RefEncoder offsets (Ends before the closing element), and == the all-known encoding's tags; with unknown ids tolerated, the same for every tree with one element of an id outside the specification put at every position (it is an ordinary child and ends nothing). Non-trivial: encodings where an unknown-size master is closed by something other than its own sibling.");
+    ctx.meta("rule", "cases: (tree, subset of masters encoded with unknown size, marker width); trees = every forest over V up to the node bound + the deep spines; all 2^m subsets; encoded by RefEncoder (1- and 8-byte all-ones markers, and for trees of <= 5 elements every marker width 1..8; plus > 64 KiB documents with long headers at every alignment around the buffer boundary) and, independently, by the real TagWriter with write_advanced(unknown). Excluded by construction: a global element as the first element after an unknown-size master's last descendant. Trees of <= 5 elements are also parsed with each master id present, and all of them, buffered (Full items). Every encoding is also parsed with hierarchy problems / oversized children / everything tolerated (a valid document holds nothing to tolerate). Oracle: strict parse == flatten(tree) with RefEncoder offsets (Ends before the closing element), and == the all-known encoding's tags; with unknown ids tolerated, the same for every tree with one element of an id outside the specification put at every position (it is an ordinary child and ends nothing). Non-trivial: encodings where an unknown-size master is closed by something other than its own sibling.");
     ctx.meta("bounds", &format!("forests <= {} elements over V (5 master levels), all subsets, devs <= {}", p.max_nodes, p.devs));
     ctx.meta("assumptions", "payload values irrelevant to closing decisions (default tiny payloads)");
-    for c in ["closed_by_sibling", "closed_by_element_one_level_up", "closed_by_element_two_or_more_levels_up", "closed_by_enclosing_known_size_end", "closed_by_end_of_input", "writer_encodings", "buffer_boundary_docs", "unknown_id_element_inside_unknown_size_encodings", "marker_widths_2_to_8", "parses_under_tolerance_switches"] {
+    for c in ["closed_by_sibling", "closed_by_element_one_level_up", "closed_by_element_two_or_more_levels_up", "closed_by_enclosing_known_size_end", "closed_by_end_of_input", "writer_encodings", "buffer_boundary_docs", "unknown_id_element_inside_unknown_size_encodings", "marker_widths_2_to_8", "parses_under_tolerance_switches", "parses_with_buffered_masters"] {
         ctx.expect_nonzero(c);
     }
     let cfg = Cfg::strict();
@@ -191,6 +191,30 @@ fn sweep<T: SpecT>(ctx: &mut Ctx, rs: &RefSpec, plist: Vec<DocParams>, label: &s
                 ctx.count("parses_under_tolerance_switches", 1);
                 if o2.items != want || !o2.clean() {
                     ctx.violation("tolerance-switch-changes-where-masters-end", &d, &format!("allow={} bytes={} expected [{}] observed {}", allow, hex(&bytes), want.iter().map(|(i, o)| format!("{}@{}", i.short(), o)).collect::<Vec<_>>().join(" "), o2.short()));
+                    break;
+                }
+            }
+        }
+        // buffered masters: an unknown-size master ends at the same place when it (or a master around / inside it) is
+        // delivered as one Full item
+        if !d28 && gen::count_nodes(doc) <= 5 {
+            let mut present: Vec<u64> = Vec::new();
+            crate::refmodel::visit(doc, &mut |n, _| {
+                if n.is_master() && !present.contains(&n.id) {
+                    present.push(n.id);
+                }
+            }, 0);
+            let mut sets: Vec<Vec<u64>> = present.iter().map(|i| vec![*i]).collect();
+            if present.len() > 1 {
+                sets.push(present.clone());
+            }
+            for set in sets {
+                let o3 = parse_slice::<T>(&bytes, &cfg.clone().with_buffered(&set));
+                ctx.transitions += o3.items.len() as u64 + 1;
+                ctx.count("parses_with_buffered_masters", 1);
+                let want_b = crate::c12::rollup_expect(&want, &set);
+                if o3.items != want_b || !o3.clean() {
+                    ctx.violation("buffered/differs-from-tree", &d, &format!("buffered={:x?} bytes={} expected [{}] observed {}", set, hex(&bytes), want_b.iter().map(|(i, o)| format!("{}@{}", i.short(), o)).collect::<Vec<_>>().join(" "), o3.short()));
                     break;
                 }
             }
